@@ -19,15 +19,25 @@ Theorem C17_start_precedence :
 Proof. exact open_run_started. Qed.
 Print Assumptions C17_start_precedence.
 
-(* a validator that rejects the merged metadata: no RunStart, no bundler (no run open) *)
+(* a validator that rejects the merged metadata: no RunStart, no bundler (the set of open runs is unchanged);
+   [opens] = keys of the runs currently open (several runs may be open under different run keys) *)
 Theorem C17_rejecting_validator_prevents_start :
-  forall (c : call) (md : md_t) (kw : md_t) (sid : val),
+  forall (c : call) (md : md_t) (opens : list rkey) (key : rkey) (kw : md_t) (sid : val),
     let r := {| call_kw := c_kw c; open_kw := kw; plan_type := c_type c; plan_name := c_name c |} in
+    key_mem key opens = false ->
     scan_src (c_hooks c) md = Some sid ->
     validator (c_hooks c) (chain_merge (chain r (set k_scan_id sid md))) = false ->
-    do_op c (md, false) (Open kw) = ((set k_scan_id sid md, false), RejectedV).
+    do_op c (md, opens) (Open key kw) = ((set k_scan_id sid md, opens), RejectedV).
 Proof. exact do_op_rejecting_validator. Qed.
 Print Assumptions C17_rejecting_validator_prevents_start.
+
+(* open_run under a run key that is already open: IllegalMessageSequence, RE.md (hence scan_id) and the open
+   runs are unchanged *)
+Theorem C17_open_twice_consumes_nothing :
+  forall (c : call) (md : md_t) (opens : list rkey) (key : rkey) (kw : md_t),
+    key_mem key opens = true -> do_op c (md, opens) (Open key kw) = ((md, opens), Illegal).
+Proof. exact do_op_open_twice. Qed.
+Print Assumptions C17_open_twice_consumes_nothing.
 
 (* what must not change: over any history, every key of RE.md other than scan_id keeps its value,
    after every message and at the end *)
@@ -39,7 +49,9 @@ Proof. exact do_calls_frame. Qed.
 Print Assumptions C17_md_frame.
 
 (* scan_id: outside finding class C17-a (no open_run rejected by validator/normalizer), with the
-   default source, the opened runs get s0+1 .. s0+n in order and RE.md keeps s0+n *)
+   default source, over any history of calls whose messages open and close runs under any run keys
+   (sequential, nested or interleaved runs, illegal opens/closes included), the opened runs get
+   s0+1 .. s0+n in order and RE.md keeps s0+n *)
 Theorem C17_scan_id_consecutive :
   forall (md : md_t) (cs : list call),
     all_default_src cs -> finding_C17_a md cs = false -> scan_ids_consecutive md cs.
@@ -67,12 +79,29 @@ Example C17_precedence_nonvacuous :
 Proof. vm_compute. do 2 eexists. repeat split. Qed.
 
 Definition nv_calls : list call :=
-  [{| c_hooks := default_hooks; c_kw := []; c_type := 30%N; c_name := 31%N; c_ops := [Open []; Close; Open []] |};
-   {| c_hooks := default_hooks; c_kw := []; c_type := 30%N; c_name := 31%N; c_ops := [Open []] |}].
+  [{| c_hooks := default_hooks; c_kw := []; c_type := 30%N; c_name := 31%N; c_ops := [Open None []; Close None; Open None []] |};
+   {| c_hooks := default_hooks; c_kw := []; c_type := 30%N; c_name := 31%N; c_ops := [Open None []] |}].
 Example C17_scan_id_nonvacuous :
   all_default_src nv_calls /\ finding_C17_a [(k_scan_id, VInt 5)] nv_calls = false /\
   opened_scan_ids (snd (do_calls [(k_scan_id, VInt 5)] nv_calls)) = [Some (VInt 6); Some (VInt 7); Some (VInt 8)].
 Proof.
   split; [|vm_compute; auto].
   intros c [<- | [<- | []]] md; reflexivity.
+Qed.
+
+(* several runs open at once: open A, open B, (open B again: illegal), close A, open C, open default *)
+Definition nv_interleaved : list call :=
+  [{| c_hooks := default_hooks; c_kw := []; c_type := 30%N; c_name := 31%N;
+      c_ops := [Open (Some 40%N) []; Open (Some 41%N) []; Open (Some 41%N) []; Close (Some 40%N);
+                Open (Some 42%N) []; Open None []] |}].
+Example C17_scan_id_interleaved_nonvacuous :
+  all_default_src nv_interleaved /\ finding_C17_a [(k_scan_id, VInt 10)] nv_interleaved = false /\
+  opened_scan_ids (snd (do_calls [(k_scan_id, VInt 10)] nv_interleaved)) =
+    [Some (VInt 11); Some (VInt 12); Some (VInt 13); Some (VInt 14)] /\
+  map (fun x : step_obs => snd x) (concat (snd (do_calls [(k_scan_id, VInt 10)] nv_interleaved))) =
+    [[Some 40%N]; [Some 40%N; Some 41%N]; [Some 40%N; Some 41%N]; [Some 41%N]; [Some 41%N; Some 42%N];
+     [Some 41%N; Some 42%N; None]].
+Proof.
+  split; [|vm_compute; auto].
+  intros c [<- | []] md; reflexivity.
 Qed.
